@@ -71,6 +71,16 @@ def correspondence(tier, seed, n=None):
         if any(len(set(fl)) > 1 for fl in flags):
             undec += 1                      # the draw is within 1e-9 of an arc end
             continue
+
+        def degenerate(fh, th):
+            f, t = C.f64(fh), C.f64(th)
+            turns = (f - t) / (2 * math.pi)
+            return (f > t and abs(turns - round(turns)) < 1e-9) or (f < t and t - f < 1e-9)
+        if any(degenerate(r["from"][i], r["to"][i]) for i in range(6)):
+            # an arc narrower than the margin (limits a whole number of turns apart): every draw is within 1e-9 of both ends, and
+            # perturbing the draw cannot show it (both neighbours are outside); same rule as for the image above
+            undec += 1
+            continue
         compared += 1
         dist["draw_verdict"] += 1
         if (zs[1] == 1) != bool(r["draw_ok"]):
